@@ -100,6 +100,7 @@ type c13Case struct {
 	Pos   int    `json:"pos,omitempty"` // replay: single position / off length
 	K     int    `json:"k,omitempty"`
 	OAM   int    `json:"oam,omitempty"` // object configuration (see c13Fresh)
+	Debug bool   `json:"debug_lcd,omitempty"`
 }
 
 // register writes that must leave the line/mode schedule alone (LCDC values get bit 7 forced on)
@@ -111,7 +112,18 @@ var c13Writes = [][2]uint16{{0xff44, 0x00}, {0xff44, 0x5a}, {0xff44, 0x90}, {0xf
 // can show; the line/mode schedule and the requests must not care); 3: forty objects on lines 0-7 (the first line
 // after switching on included).
 func c13Fresh(oam ...int) (*machine.M, *lineMon) {
-	m := machine.New(machine.ROMOnly(), machine.Opts{})
+	o := 0
+	if len(oam) > 0 {
+		o = oam[0]
+	}
+	return c13FreshOpt(o, false)
+}
+
+// c13FreshOpt: debug = the PPU is built with the LCD debugging option (Config.DebugLCD: a 256x256 picture of the
+// whole background map); line timing, modes and requests are those of the hardware whatever picture is produced.
+func c13FreshOpt(o int, debug bool) (*machine.M, *lineMon) {
+	oam := []int{o}
+	m := machine.New(machine.ROMOnly(), machine.Opts{DebugLCD: debug})
 	// power-on state: LCD already on at position 0 of its first frame
 	lm := &lineMon{}
 	lm.switchOn()
@@ -140,7 +152,7 @@ func c13Fresh(oam ...int) (*machine.M, *lineMon) {
 }
 
 func c13Check(l *explore.Local, _ struct{}, c c13Case) *explore.Fail {
-	m, lm := c13Fresh(c.OAM)
+	m, lm := c13FreshOpt(c.OAM, c.Debug)
 	if ly, mode := obs(m); ly != 0 || mode != 2 {
 		return explore.Failf("after switching on the sequence does not restart at line 0 in mode 2", "power-on: LY=%d mode=%d", ly, mode)
 	}
@@ -163,7 +175,7 @@ func c13Check(l *explore.Local, _ struct{}, c c13Case) *explore.Fail {
 				sp, so, si, st := *m.P, *m.OAM, *m.I, *m.T
 				slm := *lm
 				fail := func(f *explore.Fail) *explore.Fail {
-					f.Case = c13Case{Kind: "write", From: p, To: p + 1, Pos: p, K: wi, After: c.After, OAM: c.OAM}
+					f.Case = c13Case{Kind: "write", From: p, To: p + 1, Pos: p, K: wi, After: c.After, OAM: c.OAM, Debug: c.Debug}
 					f.Msg += fmt.Sprintf(" [%04x<-%02x written %d cycles after power-on]", w[0], w[1], p)
 					return f
 				}
@@ -197,7 +209,7 @@ func c13Check(l *explore.Local, _ struct{}, c c13Case) *explore.Fail {
 				sp, so, si, st := *m.P, *m.OAM, *m.I, *m.T
 				slm := *lm
 				fail := func(f *explore.Fail) *explore.Fail {
-					f.Case = c13Case{Kind: "offon", From: p, To: p + 1, Pos: p, K: k, After: c.After, OAM: c.OAM}
+					f.Case = c13Case{Kind: "offon", From: p, To: p + 1, Pos: p, K: k, After: c.After, OAM: c.OAM, Debug: c.Debug}
 					f.Msg += fmt.Sprintf(" [LCD switched off %d cycles after power-on for %d cycles]", p, k)
 					return f
 				}
@@ -252,8 +264,9 @@ type c14Case struct {
 	OffStep int `json:"off_step,omitempty"`
 	// Write > 0: instead of switching the LCD off, register write number Write-1 of c14Writes is made at OffAt
 	// (enumeration form: every write at every position); requests must stay exactly where they belong
-	Write int `json:"write,omitempty"`
-	OAM   int `json:"oam,omitempty"` // object configuration (see c13Fresh)
+	Write int  `json:"write,omitempty"`
+	OAM   int  `json:"oam,omitempty"` // object configuration (see c13Fresh)
+	Debug bool `json:"debug_lcd,omitempty"`
 }
 
 // register writes that must not move, add or remove a VBlank/STAT request (LCDC values keep bit 7)
@@ -267,7 +280,7 @@ var statBit = map[string]uint8{"none": 0, "hblank": 0x08, "vblank": 0x10, "oam":
 func c14Check(l *explore.Local, _ struct{}, c c14Case) *explore.Fail {
 	if c.OffAt == -2 {
 		// run once to OffFrom, then try every position from a snapshot of (PPU, OAM, interrupts)
-		m, lm := c13Fresh(c.OAM)
+		m, lm := c13FreshOpt(c.OAM, c.Debug)
 		m.Map.Write(0xff45, uint8(c.LYC))
 		m.Map.Write(0xff41, statBit[c.Source])
 		m.Map.Write(0xff0f, 0)
@@ -321,7 +334,7 @@ func c14Check(l *explore.Local, _ struct{}, c c14Case) *explore.Fail {
 		}
 		return nil
 	}
-	m, lm := c13Fresh(c.OAM)
+	m, lm := c13FreshOpt(c.OAM, c.Debug)
 	m.Map.Write(0xff45, uint8(c.LYC))
 	m.Map.Write(0xff41, statBit[c.Source])
 	m.Map.Write(0xff0f, 0)
@@ -467,13 +480,20 @@ func init() {
 		if c.Thorough() {
 			after = 17556 + 300
 		}
-		explore.Product(c.R, "free-run", explore.PartOpt{Bound: "4 frames", Domain: "power-on (empty OAM); ten objects on a line; forty objects on a line; forty objects on lines 0-7"},
+		long := 300 // frames: past any 8-bit count of frames or lines
+		if c.Thorough() {
+			long = 66_000 // past any 16-bit count of frames (18 minutes of emulated time)
+		}
+		explore.Product(c.R, "free-run", explore.PartOpt{Bound: fmt.Sprintf("4 frames; one run of %d frames", long), Domain: "power-on (empty OAM); ten objects on a line; forty objects on a line; forty objects on lines 0-7; each also with the LCD debugging option"},
 			func(yield func(c13Case) bool) {
-				for oam := 0; oam <= 3; oam++ {
-					if !yield(c13Case{Kind: "free", To: 4 * 17556, OAM: oam}) {
-						return
+				for _, dbg := range []bool{false, true} {
+					for oam := 0; oam <= 3; oam++ {
+						if !yield(c13Case{Kind: "free", To: 4 * 17556, OAM: oam, Debug: dbg}) {
+							return
+						}
 					}
 				}
+				yield(c13Case{Kind: "free", To: long * 17556, OAM: 1})
 			}, func() struct{} { return struct{}{} }, c13Check)
 		explore.Product(c.R, "off-on-at-every-position", explore.PartOpt{Bound: fmt.Sprintf("off for {0,1,5,200} cycles, then on and %d monitored cycles", after), Domain: "every cycle position of the first frame and of the second (steady) frame"},
 			func(yield func(c13Case) bool) {
@@ -528,7 +548,7 @@ func init() {
 			c.R.Rule = "IF is read and cleared through the Mapper after every machine cycle, so the exact cycle of every VBlank/STAT request of the real PPU is observed and compared with the reference: VBlank exactly in the cycle LY becomes 144; STAT exactly at the rising edge of the single enabled source (mode 0 entry / LY becomes 144 / LY becomes n for n in 0..143 / LY becomes LYC); nothing while the LCD is off; each STAT source x LYC values x 3 frames, plus LCD off (1 and 300 cycles) and on again at every cycle of lines 0, 1, 143, 144, 153 (thorough: every cycle of a frame), each tried from a snapshot; and at every such cycle one write to each of 13 registers that must not move a request (LY, LCDC keeping bit 7, scroll, window, palettes, DMA, LYC and STAT rewritten with the values they already hold): nothing may be requested by the write and every following request must stay in place"
 			c.R.Assumptions = []string{"OAM source at line 144, and whatever is requested in the cycle the LCD is switched on, are not judged", "several STAT sources at once (STAT blocking) are outside the statement"}
 		}
-		explore.Product(c.R, "requests", explore.PartOpt{Bound: "3 frames per configuration", Domain: "sources {none,hblank,vblank,oam,lyc} x LYC 0-153, 154, 200, 255 (lyc) / {0,144} (others), with empty OAM and with 10 / 40 objects on one line; off/on schedules; unrelated register writes"},
+		explore.Product(c.R, "requests", explore.PartOpt{Bound: "3 frames per configuration", Domain: "sources {none,hblank,vblank,oam,lyc} x LYC 0-153, 154, 200, 255 (lyc) / {0,144} (others), with empty OAM, with 10 / 40 objects on one line, and with the LCD debugging option; off/on schedules; unrelated register writes"},
 			func(yield func(c14Case) bool) {
 				for _, src := range []string{"none", "hblank", "vblank", "oam", "lyc"} {
 					lycs := []int{0, 144}
@@ -548,6 +568,10 @@ func init() {
 								if !yield(c14Case{Source: src, LYC: y, Frames: 3, OffAt: -1, OAM: oam}) {
 									return
 								}
+							}
+							// the same machine built with the LCD debugging option
+							if !yield(c14Case{Source: src, LYC: y, Frames: 3, OffAt: -1, OAM: 1, Debug: true}) {
+								return
 							}
 						}
 					}
